@@ -80,9 +80,16 @@ func dropInapplicableRules(s *Session, verbose bool) {
 	}
 }
 
-func evalInChild(k *isoKey) isoResult {
+func evalInChild(k *isoKey) isoResult { return evalInChildProc(k, "") }
+
+// evalInChildProc evaluates the key alone in a fresh process whose
+// process-level clock/randomness stream derives from procSeed ("" = inherit).
+func evalInChildProc(k *isoKey, procSeed string) isoResult {
 	b, _ := json.Marshal(k)
 	cmd := exec.Command(os.Args[0], "c10-one")
+	if procSeed != "" {
+		cmd.Env = append(os.Environ(), "VERIF_PROCSEED="+procSeed)
+	}
 	cmd.Stdin = bytes.NewReader(b)
 	var so, se bytes.Buffer
 	cmd.Stdout, cmd.Stderr = &so, &se
@@ -207,7 +214,31 @@ func replaySessions(rp *c10Replay) []*Session {
 	return append(all, rp.Session)
 }
 
+// procSeedOracle: the key alone in two fresh processes that differ in nothing
+// but the seed of their process-level clock/randomness stream.
+func procSeedOracle(key *isoKey, a, b uint64) (string, *Witness) {
+	ra, rb := evalInChildProc(key, fmt.Sprint(a)), evalInChildProc(key, fmt.Sprint(b))
+	x1, x2 := ra.A, rb.A
+	if x1 == x2 {
+		x1, x2 = ra.B, rb.B
+	}
+	if x1 == x2 || x1 == overBudgetMark || x2 == overBudgetMark {
+		return "", nil
+	}
+	x, y := firstDiffLine(x1, x2)
+	rule := ruleOfLine(x)
+	if x == "" {
+		rule = ruleOfLine(y)
+	}
+	w := &Witness{Key: key.ObsKey, Kind: "process", RenderingFirst: x1, RenderingLater: x2, Rule: rule,
+		FirstDiffLine: x + "  <>  " + y + fmt.Sprintf("   (alone in a fresh process with process seed %d  <>  alone in a fresh process with process seed %d)", a, b)}
+	return "disagree-procseed|rule=" + rule + "|site=process-level-clock-or-randomness", w
+}
+
 func replayC10(rp *c10Replay, verbose bool) (string, *Witness) {
+	if len(rp.ProcSeeds) == 2 && rp.HistoryKey != nil {
+		return procSeedOracle(rp.HistoryKey, rp.ProcSeeds[0], rp.ProcSeeds[1])
+	}
 	all := replaySessions(rp)
 	for _, s := range all {
 		s.Explicit = true
@@ -446,6 +477,19 @@ func c10HistoryWitnessMain(args []string) {
 		writeJSON(*out, rp)
 		fmt.Printf("escalated witness: class=%s sessions=1 candidates=1\n", class)
 		return
+	}
+	// the cheapest explanation first: no history at all, only another process.
+	// (The isolated oracle's children run with process seeds of their own.)
+	for _, ps := range []uint64{1, 2, 3, 5, 8, 13} {
+		if class, w := procSeedOracle(&m.Key, 0, ps); w != nil {
+			k := m.Key
+			rp := &c10Replay{Format: "verif-c10-replay/2", Property: "C10", Class: class, HistoryKey: &k, ProcSeeds: []uint64{0, ps}, Witness: w, Replay: true,
+				Site: "process-level-clock-or-randomness",
+				Note: "one schema text, one document text, two fresh processes that do nothing else: the results differ. The only difference between the processes is VERIF_PROCSEED, the seed of the clock readings and random draws the library makes outside any operation (package initialisation, first-use state)"}
+			writeJSON(*out, rp)
+			fmt.Printf("escalated witness: class=%s sessions=0 candidates=%d\n", class, ps)
+			return
+		}
 	}
 	c10EscalateMain([]string{"--seed", fmt.Sprint(*seed), "--worker", "0", "--index", fmt.Sprint(m.Key.Index), "--sources", *sources, "--canonical", "--iso", *in, "--out", *out, "--budget", budget.String()})
 }
